@@ -48,6 +48,25 @@ CHECKS["C20"] = (
     "DESIGN.md §6 C20",
 )
 
+CHECKS["C29"] = (
+    "Per-dialect reference graphs are regenerated from the live dialect objects on every run and Lean's kernel re-checks, for "
+    "each of the 28 dialects, that every edge of every reachable element lands on a defined element or a listed known finding "
+    "(decide +kernel per 100-row chunk), lifted by the general reachability theorem. Full for the reference graph; the lexer "
+    "clause is sampled here (each dialect's lexer on control/whitespace/astral strings) and proved on the lexer model in C01.",
+    "translator-regenerated Lean obligations (kernel-checked closure certificate) + general reachability theorem",
+    "Lean kernel; standard axioms; translator walk trusted but cross-checked against names requested from Dialect.ref at parse time; 170 dangling references on the unchanged tree are listed known findings (pinned as expected behaviour by the repo's parity tests)",
+    "DESIGN.md §6 C29",
+)
+CHECKS["C21"] = (
+    "Lean 4 theorems: the selected rules are exactly registered ∧ matched-by-selection ∧ ¬matched-by-exclusion (general); on the "
+    "live rule table, regenerated every run: every code/name/group/alias reaches its rule, a code selects only itself, `all` is "
+    "everything, codes are distinct (decide +kernel); lint-mode frame rule proved over the CrawlPure contract, which is sampled "
+    "end-to-end (rule alone vs among all).",
+    "Lean 4 proof + generated table obligations + differential correspondence with RuleSet",
+    "Lean kernel; standard axioms; rule independence itself is a sampled contract (rule bodies unmodelled)",
+    "DESIGN.md §6 C21",
+)
+
 NOT_YET = {}
 
 
